@@ -15,6 +15,7 @@
 package ice
 
 import (
+	"bytes"
 	"fmt"
 
 	"github.com/RoaringBitmap/roaring"
@@ -112,6 +113,10 @@ func (d *Dictionary) Close() error {
 func (d *Dictionary) Iterator(a segment.Automaton,
 	startKeyInclusive, endKeyExclusive []byte) segment.DictionaryIterator {
 	if d.fst != nil {
+		if startKeyInclusive != nil && endKeyExclusive != nil &&
+			bytes.Compare(startKeyInclusive, endKeyExclusive) >= 0 {
+			return emptyDictionaryIterator // empty key range
+		}
 		rv := &DictionaryIterator{
 			d: d,
 		}
